@@ -98,7 +98,11 @@ CLIENT_ASSUMPTIONS = [
 
 
 def mk(pid, runs):
-    register(Prop(pid, 'Mqtt.Properties.' + pid, ['client'], runs=runs, oracle=client_oracle, nontrivial=client_nontrivial,
+    from .props import ackq_oracle, ackq_nontrivial, by_core
+    runs = list(runs) + [Run('ackq', quick=40000, thorough=300000, seeds_thorough=4)]
+    register(Prop(pid, 'Mqtt.Properties.' + pid, ['client', 'ackq'], runs=runs,
+                  oracle=by_core({'client': client_oracle, 'ackq': ackq_oracle}),
+                  nontrivial=by_core({'client': client_nontrivial, 'ackq': ackq_nontrivial}),
                   spec_total=False, classes={'early_ack': early_ack, 'ping_slot': ping_slot, 'dup_filter_cb': dup_filter_cb},
                   assumptions=CLIENT_ASSUMPTIONS, trusted=COMMON_TRUSTED))
 
@@ -112,9 +116,13 @@ from .props import PROPS, by_core
 from . import props_broker as _pb
 _c02 = PROPS.get('C02')
 if _c02 is not None:
-    _c02.cores = ['broker', 'client']
-    _c02.runs = list(_c02.runs) + [Run('client', quick=8000, thorough=60000, seeds_thorough=6)]
-    _c02.oracle = by_core({'broker': _pb.broker_oracle, 'client': client_oracle})
-    _c02.nontrivial = by_core({'broker': _pb.broker_nontrivial, 'client': client_nontrivial})
+    # the QoS 2 queue of both roles is the ring-based Ackqueue, used through its FIFO specification
+    # (C02_pub2in_is_ackqueue + C13_refines): the ack-queue correspondence is part of this property's tie
+    from .props import ackq_oracle, ackq_nontrivial
+    _c02.cores = ['broker', 'client', 'ackq']
+    _c02.runs = list(_c02.runs) + [Run('client', quick=8000, thorough=60000, seeds_thorough=6),
+                                   Run('ackq', quick=40000, thorough=300000, seeds_thorough=4)]
+    _c02.oracle = by_core({'broker': _pb.broker_oracle, 'client': client_oracle, 'ackq': ackq_oracle})
+    _c02.nontrivial = by_core({'broker': _pb.broker_nontrivial, 'client': client_nontrivial, 'ackq': ackq_nontrivial})
     _c02.classes = dict(_c02.classes, early_ack=early_ack, ping_slot=ping_slot, dup_filter_cb=dup_filter_cb)
     _c02.assumptions = list(_c02.assumptions) + CLIENT_ASSUMPTIONS
